@@ -203,7 +203,6 @@ structure LvVecs where
 structure St where
   lv : Array LvVecs
   log : Array String := #[]
-  divZero : Bool := false
   deriving Inhabited
 
 structure Cfg where
@@ -238,6 +237,9 @@ def stepRest (cfg : Cfg) (i : Nat) (smooth : Bool) (s : St) : St :=
   let vc := s.get (i + 1)
   s.put (i + 1) { vc with rhs := filt Lc.fidx (mulVec L.R v.defe) }
 
+/-- `if(omega_den != 0) omega_cgc = num / omega_den;` with `omega_cgc` initialised to 1 -/
+def cgcOmega (num den : Rat) : Rat := if den == 0 then 1 else num / den
+
 /-- one body of the `_apply_prol` loop -/
 def stepProl (cfg : Cfg) (i : Nat) (smooth : Bool) (s : St) : St :=
   let L := cfg.level i
@@ -246,19 +248,16 @@ def stepProl (cfg : Cfg) (i : Nat) (smooth : Bool) (s : St) : St :=
   let s := s.say s!"P{i}"
   let cor := filt L.fidx (mulVec L.P vc.sol)
   let v := { v with cor := cor }
-  -- adaptive coarse grid correction
-  let (omega, v, bad) :=
+  -- adaptive coarse grid correction; a vanishing denominator keeps `omega = 1` (fix of finding F-C09-1)
+  let (omega, v) :=
     match cfg.cgc with
-    | .fixed => ((1 : Rat), v, false)
+    | .fixed => ((1 : Rat), v)
     | .minEnergy =>
       let tmp := filt L.fidx (mulVec L.A cor)
-      let den := dot tmp cor
-      (dot v.defe cor / den, { v with tmp := tmp }, den == 0)
+      (cgcOmega (dot v.defe cor) (dot tmp cor), { v with tmp := tmp })
     | .minDefect =>
       let tmp := filt L.fidx (mulVec L.A cor)
-      let den := dot tmp tmp
-      (dot v.defe tmp / den, { v with tmp := tmp }, den == 0)
-  if bad then { s with divZero := true } else
+      (cgcOmega (dot v.defe tmp) (dot tmp tmp), { v with tmp := tmp })
   let v := { v with sol := axpy omega v.cor v.sol }
   match L.post, smooth with
   | some m, true =>
@@ -304,9 +303,8 @@ def stepCoarse (cfg : Cfg) (s : St) : St :=
   | some m => (s.say s!"c{i}").put i { v with sol := mulVec m v.rhs }
   | none => s.put i { v with sol := filt L.fidx v.rhs }
 
-/-- semantics of a primitive step; once `Q` has aborted on a division by zero nothing happens any more -/
+/-- semantics of a primitive step -/
 def step (cfg : Cfg) (ins : Instr) (s : St) : St :=
-  if s.divZero then s else
   match ins with
   | .rest i sm => stepRest cfg i sm s
   | .prol i sm => stepProl cfg i sm s
@@ -321,7 +319,6 @@ structure Obj where
 inductive Outcome where
   | ok (log : List String) (cor : Vec)
   | abortRange
-  | abortDivZero
   | abortSanity
 
 /-- constructor / `set_levels` range checks on `int` arguments converted to `Index`:
@@ -339,8 +336,7 @@ def startState (o : Obj) (top : Nat) (d : Vec) : St :=
 /-- run a program of primitive steps and read off `vec_cor.copy(lvl_top.vec_sol)` -/
 def runProg (cfg : Cfg) (top : Nat) (p : List Instr) (s0 : St) (cnt : Nat → Nat) : Outcome × Obj :=
   let s := exec (step cfg) p s0
-  if s.divZero then (.abortDivZero, { lv := s.lv, counters := cnt })
-  else (.ok s.log.toList (s.get top).sol, { lv := s.lv, counters := cnt })
+  (.ok s.log.toList (s.get top).sol, { lv := s.lv, counters := cnt })
 
 /-- `MultiGrid::apply` for one defect vector -/
 def applyOnce (levels : Array Level) (k : Cycle) (cgc : Cgc) (top crs : Nat) (d : Vec) (o : Obj) : Outcome × Obj :=
